@@ -109,7 +109,7 @@ type Mod struct {
 	Kind string `json:"kind"` // "", refine-*, augment, when, if-feature, status
 }
 
-var mods = []string{"", "augment-when", "refine-default", "refine-mandatory", "refine-config", "refine-presence", "refine-description", "refine-min", "refine-must", "refine-nested", "augment", "when", "if-feature", "if-feature-off", "status"}
+var mods = []string{"", "augment-uses-when", "augment-uses-if-feature-off", "augment-uses-status", "augment-when", "refine-default", "refine-mandatory", "refine-config", "refine-presence", "refine-description", "refine-min", "refine-must", "refine-nested", "augment", "when", "if-feature", "if-feature-off", "status"}
 
 type Structure struct {
 	Body   []string `json:"body"`   // names from the menu
@@ -249,6 +249,36 @@ func build(s Structure) (r rendered, applicable bool) {
 				}
 			}
 			n.Props = append(props, stmt)
+		case strings.HasPrefix(m, "augment-uses-"):
+			// an augment inside the uses that carries when / if-feature / status and itself
+			// contains a uses: the statement applies to the nodes of that inner uses too
+			if !s.Nested {
+				return r, false
+			}
+			tgt := ""
+			for _, t := range []string{"c", "li"} {
+				if find(body, t) != nil {
+					tgt = t
+					break
+				}
+			}
+			if tgt == "" {
+				return r, false
+			}
+			prop := map[string]string{"augment-uses-when": `when "k = 'on'";`, "augment-uses-if-feature-off": `if-feature off;`, "augment-uses-status": `status deprecated;`}[m]
+			g2 := "g2"
+			if s.Def == "import" {
+				g2 = "b:g2"
+			}
+			usesExtra += fmt.Sprintf(" augment %s { %s leaf direct { type string; } uses %s; }", tgt, prop, g2)
+			n := find(inl, tgt)
+			d := lf("direct", "string", prop)
+			in := inner[0].clone()
+			in.Props = append(in.Props, prop)
+			n.Kids = append(n.Kids, d, in)
+			if m == "augment-uses-when" {
+				r.whenPaths = append(r.whenPaths, "direct", in.Name)
+			}
 		case m == "augment" || m == "augment-when":
 			tgt := ""
 			for _, t := range []string{"c", "li", "ch"} {
